@@ -1614,7 +1614,10 @@ func isDynamoRead(i ssa.Instruction) bool {
 }
 
 // readHelpersOf: the same-package functions f calls statically that contain a backend read (one level).
-func readHelpersOf(f *ssa.Function) []*ssa.Function {
+func readHelpersOf(f *ssa.Function) []*ssa.Function { return readHelpersWith(f, isDynamoRead) }
+
+// readHelpersWith: the same-package functions f calls statically that contain an instruction satisfying isRead.
+func readHelpersWith(f *ssa.Function, isRead func(ssa.Instruction) bool) []*ssa.Function {
 	var out []*ssa.Function
 	seen := map[*ssa.Function]bool{}
 	allInstrs(f, func(i ssa.Instruction) {
@@ -1625,12 +1628,39 @@ func readHelpersOf(f *ssa.Function) []*ssa.Function {
 		if g == nil || g.Blocks == nil || g.Pkg != f.Pkg || g == f || seen[g] {
 			return
 		}
-		if containsInstr(g, isDynamoRead) {
+		if containsInstr(g, isRead) {
 			seen[g] = true
 			out = append(out, g)
 		}
 	})
 	return out
+}
+
+// sqlForwarder: h is an unexported function of pkg/persistence that hands its own query-string parameter and its own
+// variadic parameter straight to one database/sql statement call (queryEnvelope(ctx, query, args...)): the indices of
+// those two parameters.
+func sqlForwarder(h *ssa.Function) (queryIdx, bindIdx int, ok bool) {
+	if h == nil || h.Blocks == nil || h.Pkg == nil || h.Pkg.Pkg.Path() != pkgPersist || h.Object() == nil || h.Object().Exported() || !h.Signature.Variadic() {
+		return 0, 0, false
+	}
+	n := 0
+	queryIdx, bindIdx = -1, -1
+	allInstrs(h, func(i ssa.Instruction) {
+		if !(staticIs(i, "(*database/sql.DB).ExecContext") || staticIs(i, "(*database/sql.DB).QueryRowContext") || staticIs(i, "(*database/sql.DB).QueryContext")) {
+			return
+		}
+		n++
+		args := callOf(i).Args
+		for k, p := range h.Params {
+			if len(args) > 3 && resolve(args[2]) == ssa.Value(p) {
+				queryIdx = k
+			}
+			if len(args) > 3 && resolve(args[3]) == ssa.Value(p) {
+				bindIdx = k
+			}
+		}
+	})
+	return queryIdx, bindIdx, n == 1 && queryIdx >= 0 && bindIdx >= 0
 }
 
 // maybeReturning: g reports (value[, found bool], error) — a helper that may come back with nothing.
